@@ -152,13 +152,19 @@ async def _run(recipe, lines, tags):
         lines.append("res " + res)
         routed = []
         for s in probes:
-            svc = eh.service_for_sid(s)
-            routed.append(f"{tok_str(s)}:{'!' if svc is None else svcs.index(svc)}")
+            try:
+                svc = eh.service_for_sid(s)
+                routed.append(f"{tok_str(s)}:{'!' if svc is None else svcs.index(svc) if svc in svcs else 98}")
+            except Exception:  # noqa: BLE001 - an observation that raises is reported as routed to nowhere known
+                routed.append(f"{tok_str(s)}:97")
         lines.append("routed " + ",".join(routed))
         sf = []
         for i, svc in enumerate(svcs):
-            s = eh.sid_for_service(svc)
-            sf.append(f"{i}:{'!' if s is None else tok_str(s)}")
+            try:
+                s = eh.sid_for_service(svc)
+                sf.append(f"{i}:{'!' if s is None else tok_str(str(s))}")
+            except Exception:  # noqa: BLE001
+                sf.append(f"{i}:{tok_str('<raised>')}")
         lines.append("sidfor " + ",".join(sf))
         tags.add("call:" + k + (":" + op[1] if k in ("resub", "unsub") else ""))
         tags.add("res:" + res.split()[0])
